@@ -42,6 +42,30 @@ CLAIMED["C04"] = {
     "technique": _T + ": guard extraction + interval algebra vs documented table, dominance of the check over entry points, who-may-construct on checked types",
 }
 
+CLAIMED["C07"] = {
+    "text": "Decides structural necessary conditions for the neighbour indices, for all point sets, queries and metrics: distances and "
+            "reduced distances are never mixed in comparisons, min/max, sums, conversions, heap keys or call arguments (unit tags "
+            "inferred from the Distance trait's own methods, with function summaries); the three index kinds perform the same build "
+            "checks and reject wrong-dimension queries; the relation that admits a point at distance exactly `range` is the same "
+            "in all three kinds - for the k-d tree read from the typed HIR of the kdtree crate at the locked version and "
+            "intersected with linfa's own post-filter. Not decided: geometric sufficiency of pruning bounds, k-NN ties.",
+    "design_ref": "DESIGN.md section 4, C07",
+    "note": "Trusted: rustc resolution/typeck, the fact dump (also of the locked kdtree dependency), consistency of each metric's four Distance methods.",
+    "technique": _T + ": unit-of-measure tag inference (dist/rdist), sibling agreement of argument checks and of the radius relation, dependency facts for kdtree",
+}
+
+CLAIMED["C08"] = {
+    "text": "Decides structural necessary conditions of the density-clustering definition for all inputs: every insertion into DBSCAN's "
+            "frontier is control-dependent on `neighbour count >= min_points` in canonical form (strictness is the definition) and the "
+            "cluster id advances once per seed; the count includes every element of the range query, the query point included; both "
+            "algorithms build their index only through the configurable NearestNeighbour and query it with the tolerance; results of "
+            "within_range (documented as unordered) are never used by rank without a sort. Independence from the index kind further "
+            "relies on C07. Not decided: OPTICS exactly-once listing and reachability values, border-point labels.",
+    "design_ref": "DESIGN.md section 4, C08",
+    "note": "Trusted: rustc resolution/typeck, the fact dump.",
+    "technique": _T + ": control dependence of frontier insertions on the canonical core condition, order taint of range-query results",
+}
+
 CLAIMED["C09"] = {
     "text": "Decides structural necessary conditions of the k-means property for all data, seeds and budgets: fit, fit_with, both "
             "predict forms and transform obtain (index, distance) from one scan function that keeps the smaller rdistance, "
